@@ -683,6 +683,45 @@ def main(run):
                                 slots=case["ks"], partitions=[len(r[0]) for r in case["runs"]]))
         for kernel, _ in kernels.values():
             kernel.release()
+    # ---- tabulated (array) distributions through the SasView-style object: the table IS the mesh - every entry is a
+    # point of the sum, a one-entry table is evaluated at its entry (not at the nominal value), whatever the
+    # distribution object's (unused) width field says
+    from sasmodels import weights as _W
+    from sasmodels.sasview_model import _make_standard_model as _std
+    from sasmodels.direct_model import call_Fq as _call_Fq
+    stats["array_tables"] = 0
+    q_arr = np.array([0.01, 0.05, 0.2])
+    for aname, apar in (("sphere", "radius"), ("cylinder", "length"), ("hollow_cylinder", "thickness"), ("core_shell_sphere", "thickness")):
+        if aname not in names:
+            continue
+        ainfo = sas.load(aname).info
+        akern = sas.load(aname).make_kernel([q_arr])
+        for ntab in (1, 2, 5) if not thorough else (1, 2, 3, 5, 9):
+            pars_a = base_pars(ainfo, rng)
+            vals_ = np.array(sorted(pars_a[apar] * rng.uniform(0.6, 1.5) for _ in range(ntab)))
+            wts_ = np.array([rng.uniform(0.2, 2) for _ in range(ntab)])
+            sc_, bg_ = rng.uniform(0.3, 2), rng.uniform(0, 0.1)
+            M = _std(aname)()
+            for k_, v_ in dict(pars_a, scale=sc_, background=bg_).items():
+                if k_ in M.params:
+                    M.setParam(k_, v_)
+            disp_ = _W.ArrayDispersion()
+            disp_.set_weights(vals_, wts_)
+            M.set_dispersion(apar, disp_)
+            got_ = np.asarray(M.evalDistribution(q_arr), "d")
+            num_ = np.zeros(len(q_arr)); den_ = 0.0
+            for v_, w_ in zip(vals_, wts_):
+                F_ = _call_Fq(akern, dict(pars_a, **{apar: float(v_)}), cutoff=0.0)
+                num_ += w_ * np.asarray(F_[1], "d"); den_ += w_ * float(F_[3])
+            want_ = sc_ * num_ / den_ + bg_
+            evals += 1 + ntab; stats["array_tables"] += 1
+            if np.any(np.abs(got_ - want_) > 1e-10 * np.abs(want_)):
+                run.add(Finding("C01:array-table:%s" % aname, "%s with a %d-entry table on %s (values %s, weights %s): the SasView-style object returns %s, scale*sum(w F^2)/sum(w V)+background over the table is %s" % (
+                    aname, ntab, apar, np.round(vals_, 4).tolist(), np.round(wts_, 4).tolist(), got_.tolist(), want_.tolist()),
+                    dict(model=aname, parameter=apar, pars=pars_a, values=vals_.tolist(), weights=wts_.tolist(), scale=sc_, background=bg_)))
+            else:
+                distinct.add(("array-table", aname, ntab))
+        akern.release()
     # ---- correspondence: Coq float model vs implementation
     traces = 0
     if coq_cases:
